@@ -300,8 +300,12 @@ class Program(object):
         return 'ext:' + U(expr)
 
     # ---------------------------------------------------------------- lookup
-    def lookup(self, m, name):
+    def lookup(self, m, name, _seen=None):
         """Resolve a module-level name."""
+        _seen = _seen or set()
+        if (m.name, name) in _seen:
+            return None             # import cycle
+        _seen.add((m.name, name))
         if name in m.classes:
             return ('class', m.classes[name])
         if name in m.funcs:
@@ -318,7 +322,7 @@ class Program(object):
                     return ('ext', imp[1] + '.' + imp[2])
                 if tm is m and imp[2] == name:
                     return None
-                return self.lookup(tm, imp[2])
+                return self.lookup(tm, imp[2], _seen)
             if imp[0] == 'extmod':
                 return ('extmod', imp[1])
             if imp[0] == 'extsym':
